@@ -215,6 +215,14 @@ impl Prop for C02 {
             // neither TLS nor NLA was requested: plain RDP security is what was offered (outside this property)
             return Outcome::pass("rdp-only-offered", false);
         }
+        // a response naming an offered protocol but with a wrong length field is merely malformed: the statement
+        // does not say whether it must be refused, so only the trace oracles above apply to it
+        if c.cc_kind == CcKind::Response && c.cc_len_field != 8 && (c.selected == 1 || c.selected == 2) && offered & c.selected == c.selected {
+            if ok || pr.raw_after_cc.is_empty() || only_tls_records(&pr.raw_after_cc).is_ok() {
+                return Outcome::pass(format!("malformed-length-field:{}", if ok { "accepted" } else { "refused" }), true);
+            }
+            return Outcome::fail("mismatch", "non-tls-bytes-after-confirm", "plain bytes written after a confirm with a wrong length field".to_string());
+        }
         let acceptable = c.cc_kind == CcKind::Response && c.cc_len_field == 8 && c.selected != 0 && (c.selected == 1 || c.selected == 2 || c.selected == 8) && offered & c.selected == c.selected;
         let continued = !pr.raw_after_cc.is_empty();
         if !acceptable {
@@ -247,6 +255,10 @@ impl Prop for C02 {
         if c.selected == 8 {
             // HybridEx is not implemented by this client: refusing it is allowed
             return Outcome::pass(format!("hybrid-ex:{}", if ok { "ok".to_string() } else { err_class(&err) }), true);
+        }
+        if c.cc_flags & !0x1F != 0 {
+            // flag bits MS-RDPBCGR does not define: a conforming server never sets them; accepting or refusing is fine
+            return Outcome::pass(format!("undefined-flag-bits:{}", if ok { "accepted" } else { "refused" }), true);
         }
         // conforming server, acceptable selection: the connection must proceed (vacuity guard for the clauses above)
         if c.direct_mask.is_some() {
